@@ -4,12 +4,20 @@
  *   fsize <hex>                        ZSTD_findFrameCompressedSize
  *   bound <hex>                        ZSTD_decompressBound
  *   hdr <hex>                          ZSTD_getFrameHeader: ret + fields */
+#include "mem.h"
 #include "zvh_common.h"
+#include <signal.h>
+#include <unistd.h>
+#define ZDICT_STATIC_LINKING_ONLY
+#include "zdict.h"
+static void on_alarm(int s) { (void)s; { static const char m[] = "TIMEOUT\n"; if (write(1, m, sizeof m - 1) < 0) {} } _exit(3); }
 
 int main(void) {
     char* line; ZSTD_DCtx* dctx = ZSTD_createDCtx(); ZSTD_CCtx* cctx = ZSTD_createCCtx();
+    signal(SIGALRM, on_alarm);
     while ((line = zv_getline())) {
         char* op = strtok(line, " "); if (!op) continue;
+        alarm(60);   /* every operation must return in bounded time */
         if (!strcmp(op, "dec")) {
             size_t cap = (size_t)strtoull(strtok(NULL, " "), NULL, 10), n, dn = 0; char* hx = strtok(NULL, " "); char* dh = strtok(NULL, " ");
             unsigned char* in = zv_unhex(hx, &n); unsigned char* d = dh ? zv_unhex(dh, &dn) : NULL;
@@ -135,6 +143,42 @@ int main(void) {
             if (ZSTD_isError(r)) printf("err %s calls=%d consumed=%zu\n", zv_errclass(r), calls, consumed);
             else { zv_puthex(out, produced); printf(" flushes=%s calls=%d noprogress=%d\n", fll ? fl : "-", calls, noprog); }
             free(in); free(out); free(d);
+        } else if (!strcmp(op, "ddict")) {
+            /* ddict <hex> : offer arbitrary bytes as a dictionary to both sides */
+            size_t dn; unsigned char* d = zv_unhex(strtok(NULL, " "), &dn);
+            ZSTD_DDict* dd = ZSTD_createDDict(d, dn); ZSTD_CDict* cd = ZSTD_createCDict(d, dn, 3);
+            size_t r1 = ZSTD_DCtx_loadDictionary(dctx, d, dn); size_t r2 = ZSTD_CCtx_loadDictionary(cctx, d, dn);
+            printf("ddict=%s cdict=%s id=%u idD=%u idC=%u loadD=%s loadC=%s\n", dd ? "ok" : "null", cd ? "ok" : "null", ZSTD_getDictID_fromDict(d, dn),
+                   dd ? ZSTD_getDictID_fromDDict(dd) : 0, cd ? ZSTD_getDictID_fromCDict(cd) : 0, zv_errclass(r1), zv_errclass(r2));
+            if (cd) { unsigned char o[512]; static const unsigned char x[64] = "abcabcabcabcabcabcabcabcabcabcabcabcabcabcabcabcabcabcabcabcabc"; size_t c = ZSTD_compress_usingCDict(cctx, o, sizeof o, x, sizeof x, cd);
+                if (!ZSTD_isError(c) && dd) { unsigned char y[64]; size_t r = ZSTD_decompress_usingDDict(dctx, y, sizeof y, o, c, dd); if (ZSTD_isError(r) || r != 64 || memcmp(x, y, 64)) printf("ROUNDTRIP-FAIL\n"); } }
+            ZSTD_DCtx_reset(dctx, ZSTD_reset_session_and_parameters); ZSTD_CCtx_reset(cctx, ZSTD_reset_session_and_parameters);
+            ZSTD_freeDDict(dd); ZSTD_freeCDict(cd); free(d);
+        } else if (!strcmp(op, "multidd")) {
+            /* multidd <n> <frameDictID> : reference n DDicts (ids 1000..1000+n-1) in multi-DDict mode, then decode a tiny frame naming <frameDictID> */
+            int n = atoi(strtok(NULL, " ")), i; unsigned fid = (unsigned)strtoul(strtok(NULL, " "), NULL, 10);
+            ZSTD_DDict** dds = (ZSTD_DDict**)calloc((size_t)n + 1, sizeof *dds); size_t r = 0; unsigned char frame[16]; unsigned char out[16];
+            static unsigned char samples[2048]; size_t ssz[8]; for (i = 0; i < 2048; i++) samples[i] = (unsigned char)("the quick brown fox "[i % 20] + (i / 256)); for (i = 0; i < 8; i++) ssz[i] = 256;
+            ZSTD_DCtx* dc = ZSTD_createDCtx(); ZSTD_DCtx_setParameter(dc, ZSTD_d_refMultipleDDicts, ZSTD_rmd_refMultipleDDicts);
+            for (i = 0; i < n && !ZSTD_isError(r); i++) {
+                unsigned char db[1024]; ZDICT_params_t zp; size_t ds; memset(&zp, 0, sizeof zp); zp.dictID = 1000u + (unsigned)i;
+                ds = ZDICT_finalizeDictionary(db, sizeof db, samples + 16 * (i % 8), 600, samples, ssz, 8, zp);
+                if (ZDICT_isError(ds)) { r = ds; break; }
+                dds[i] = ZSTD_createDDict(db, ds); r = ZSTD_DCtx_refDDict(dc, dds[i]);
+            }
+            frame[0] = 0x28; frame[1] = 0xB5; frame[2] = 0x2F; frame[3] = 0xFD; frame[4] = 0x23; MEM_writeLE32(frame + 5, fid); frame[9] = 0; frame[10] = 1; frame[11] = 0; frame[12] = 0;
+            if (!ZSTD_isError(r)) r = ZSTD_decompressDCtx(dc, out, sizeof out, frame, 13);
+            printf("multidd n=%d -> %s\n", n, zv_errclass(r));
+            if (!ZSTD_isError(r) || 1) { ZSTD_inBuffer ib = { frame, 13, 0 }; ZSTD_outBuffer ob = { out, sizeof out, 0 }; ZSTD_DCtx_reset(dc, ZSTD_reset_session_only); r = ZSTD_decompressStream(dc, &ob, &ib); printf("multidd-stream -> %s\n", zv_errclass(r)); }
+            ZSTD_freeDCtx(dc); for (i = 0; i < n; i++) ZSTD_freeDDict(dds[i]); free(dds);
+        } else if (!strcmp(op, "bufless")) {
+            /* bufless <cap> <hex> : ZSTD_decompressBegin / nextSrcSizeToDecompress / decompressContinue */
+            size_t cap = (size_t)strtoull(strtok(NULL, " "), NULL, 10), n; unsigned char* in = zv_unhex(strtok(NULL, " "), &n);
+            unsigned char* out = (unsigned char*)malloc(cap ? cap : 1); size_t ip = 0, op_ = 0, r = ZSTD_decompressBegin(dctx); int steps = 0;
+            while (!ZSTD_isError(r) && steps++ < 1000000) { size_t want = ZSTD_nextSrcSizeToDecompress(dctx); if (want == 0) break; if (want > n - ip) { r = (size_t)-ZSTD_error_srcSize_wrong; break; }
+                r = ZSTD_decompressContinue(dctx, out + op_, cap - op_, in + ip, want); ip += want; if (!ZSTD_isError(r)) op_ += r; }
+            if (ZSTD_isError(r)) printf("err %s\n", zv_errclass(r)); else printf("ok %zu %016llx consumed=%zu\n", op_, (unsigned long long)XXH64(out, op_, 0), ip);
+            ZSTD_DCtx_reset(dctx, ZSTD_reset_session_only); free(in); free(out);
         } else if (!strcmp(op, "cbound")) {
             unsigned long long n = strtoull(strtok(NULL, " "), NULL, 10); size_t b = ZSTD_compressBound((size_t)n); if (ZSTD_isError(b)) printf("E\n"); else printf("%llu\n", (unsigned long long)b);
         } else if (!strcmp(op, "ccap")) {
